@@ -64,7 +64,8 @@ struct GenOpts
    bool allowNonFlattenable; // pointer and tag fields
    int  maxDepth;
    uint32 maxTopOps;
-   GenOpts() : commonRepertoire(false), pythonSafe(false), allowBursts(true), allowNonFlattenable(true), maxDepth(4), maxTopOps(28) {}
+   bool allowZeroLenRaw;     // zero-length raw items inside the common repertoire (C08 parse legs; the C builders cannot make them)
+   GenOpts() : commonRepertoire(false), pythonSafe(false), allowBursts(true), allowNonFlattenable(true), maxDepth(4), maxTopOps(28), allowZeroLenRaw(false) {}
 };
 
 struct GenStats
@@ -163,7 +164,7 @@ private:
          default:
          {
             const uint8_t k = _bs.u8()%8;
-            if ((k == 0)&&(_o.commonRepertoire == false)&&(tc == B_RAW_TYPE)) {st.hasZeroLenRaw = true; return std::string();}
+            if ((k == 0)&&((_o.commonRepertoire == false)||(_o.allowZeroLenRaw))&&(tc == B_RAW_TYPE)) {st.hasZeroLenRaw = true; return std::string();}
             std::string r; const uint32 n = (k == 1) ? 300 : (1+_bs.u8()%20); for (uint32 i=0; i<n; i++) r.push_back((char)_bs.u8()); return r;
          }
       }
